@@ -182,12 +182,13 @@ def check_case(case):
 def explore_shard(acc, shard):
     kind = shard[0]
     if kind == "sets":
-        _, grid, famname, first, max_events, seed = shard
+        _, grid, famname, first, max_events, seed = shard[:6]
+        tiny = len(shard) > 6 and shard[6]
         fam = TC.family(famname, seed)
-        evs = TC.all_events(grid)
+        evs = TC.all_events(grid, tiny)
         beats = TC.query_beats(grid)
         origin, step = TC.GRIDS[grid]
-        layer = f"{grid} grid, {famname} values"
+        layer = f"{grid} grid, {famname} values" + (", with a warp shorter than half a tick" if tiny else "")
 
         def visit(sel):
             events = tuple(evs[i] for i in sel)
@@ -208,6 +209,8 @@ def explore_shard(acc, shard):
                     acc.count("nontrivial")
                 for f in fails:
                     acc.violation(f["clause"], case, f["expected"], f["observed"], signature=(f["clause"],))
+            if any(k == "W0" for g, k in events):
+                acc.outcome("warp shorter than half a tick")
             kinds = {k[0] for g, k in events}
             if "W" in kinds and ("S" in kinds or "D" in kinds):
                 acc.outcome("pause together with a warp")
@@ -273,6 +276,9 @@ def explore(run):
         shards.append(("sets", grid, fam, None, max_events, run.seed))
         for i in range(len(TC.all_events(grid))):
             shards.append(("sets", grid, fam, i, max_events, run.seed))
+    # warps whose positive length snaps to zero ticks, alone and together with 1 (thorough: <= 3) other events
+    for i in range(4):
+        shards.append(("sets", "coarse", "dyadic", i, 4 if run.thorough() else 2, run.seed, True))
     shards += [("corpus", i) for i in range(len(TC.corpus_timelines()))]
     k = run.seed % len(shards)
     shards = shards[k:] + shards[:k]
@@ -290,6 +296,7 @@ def explore(run):
         "timing data in the stated domain: first BPM at beat 0, positive BPMs and pause lengths, tick-aligned sorted beats",
         "agreement to 1e-9 s; exact equality for metamorphic relations on dyadic values",
     ]
+    core.require(acc.outcomes["warp shorter than half a tick"] > 0, "no tiny warp")
     core.require(acc.outcomes["pause together with a warp"] > 0, "no pause+warp timeline")
     core.require(acc.outcomes["several warps"] > 0, "no multi-warp timeline")
     core.require(acc.outcomes["BPM change together with a warp"] > 0, "no BPM change with warp")
